@@ -31,12 +31,22 @@
 (*           model: model.MaxTime = bmax, model.EquationSolver.MaxTime = horizon).     *)
 (*           The solver's value wins whenever it is set (not None) - 0 included, and   *)
 (*           whether it is smaller or larger than the block's.                         *)
+(*           "ctor": like "block", parsed by the constructor EquationSolver(<block>).  *)
+(*           "kept": like "both", but the solver attribute was written during an       *)
+(*           earlier round on the same solver object and is simply still there.        *)
 (*           "late_ctor" / "late_parse": MaxTime line in the block, then - after       *)
 (*           EquationSolver(<block>) resp. ParseString(<block>) - the attribute        *)
 (*           EquationSolver.MaxTime is assigned cfg.late (larger or smaller).  That    *)
 (*           assignment comes too late to have any effect: the horizon of the solve    *)
 (*           stays the parsed one, and every C10_* invariant is stated against it.     *)
 (*   reduce  run_equation_reduction                                                    *)
+(*   solve   FALSE: the block is only parsed (the round ends there)                    *)
+(*                                                                                     *)
+(* A history (`plan`) is one configuration, or two that are parsed one after the other *)
+(* into ONE solver object (Reparse).  The only thing a second ParseString inherits is  *)
+(* the attribute EquationSolver.MaxTime (smax): None unless the USER wrote it - before *)
+(* a parse, or late.  A horizon that merely stood in an earlier block's MaxTime line   *)
+(* does not survive.  All C10_* invariants hold at the end of every round.             *)
 (*                                                                                     *)
 (* One action per critical section, each through a pure operator <Name>Op so that      *)
 (* Horizon_Trace uses the same definitions:                                            *)
@@ -86,11 +96,12 @@ WellOrdered(vs) ==
 ----------------------------------------------------------------------------
 (* what the user supplied *)
 (* the two sources of the horizon, and which one wins *)
-BlockMax(c)  == CASE c.where \in {"block", "late_ctor", "late_parse"} -> c.horizon
-                  [] c.where = "both" -> c.bmax
+(* sm = the solver attribute as the previous round (if any) left it; -1: None *)
+BlockMax(c)  == CASE c.where \in {"block", "ctor", "late_ctor", "late_parse"} -> c.horizon
+                  [] c.where \in {"both", "kept"} -> c.bmax
                   [] OTHER -> 0                        \* no MaxTime line: the parser's default
-SolverMax(c) == IF c.where \in {"solver", "both"} THEN c.horizon ELSE -1     \* -1: None
-ParsedHorizon(c) == IF SolverMax(c) # -1 THEN SolverMax(c) ELSE BlockMax(c)
+SolverMax(c, sm) == IF c.where \in {"solver", "both"} THEN c.horizon ELSE sm
+ParsedHorizon(c, sm) == IF SolverMax(c, sm) # -1 THEN SolverMax(c, sm) ELSE BlockMax(c)
 (* the horizon the user asked for, which all C10_* invariants are stated against *)
 HorizonOf(c) == IF c.where = "default" THEN 0 ELSE c.horizon
 IsLate(c) == c.where \in {"late_ctor", "late_parse"}
@@ -116,11 +127,11 @@ RejectedInput(c) == ICRejected(c) \/ ExoRejected(c)
 S0 == [phase |-> "setup", vars |-> << >>, deco |-> {}, horizon |-> 0,
        series |-> << >>, tz |-> {}, step |-> 0, err |-> "", smax |-> -1]
 
-ParseOp(c) ==
+ParseOp(c, sm) ==
     LET vs == AllVars(c)
     IN [S0 EXCEPT !.phase = "parsed", !.vars = vs, !.deco = DecoSet(vs, c.reduce),
-                  !.horizon = ParsedHorizon(c),
-                  !.smax = SolverMax(c)]
+                  !.horizon = ParsedHorizon(c, sm),
+                  !.smax = SolverMax(c, sm)]
 
 (* solver.MaxTime = N after the block was parsed: only the attribute changes *)
 LateAssignOp(s, c) ==
@@ -220,7 +231,9 @@ SolveOp(s, c) ==
     FinishOp(StepsFrom(IC_Pass4Op(IC_Pass3Op(IC_Pass2Op(IC_Pass1Op(LateAssignOp(s, c), c), c), c), c), c, 1))
 
 ----------------------------------------------------------------------------
-VARIABLES cfg,       \* the block and the supplied data (fixed along a behaviour)
+VARIABLES plan,      \* the history: sequence of 1 or 2 configurations for one solver object
+          idx,       \* the round being executed
+          cfg,       \* the block and the supplied data of the current round (= plan[idx])
           phase,     \* "setup" | "parsed" | "assigned" | "ic1" .. "ic4" | "step" | "done" | "reject"
           vlist,     \* variables after parsing (default t added)
           deco,      \* names classified decorative
@@ -231,7 +244,7 @@ VARIABLES cfg,       \* the block and the supplied data (fixed along a behaviour
           err,       \* reason of a Reject
           smax       \* the attribute EquationSolver.MaxTime (-1: None)
 
-hvars == << cfg, phase, vlist, deco, horizon, series, tz, step, err, smax >>
+hvars == << plan, idx, cfg, phase, vlist, deco, horizon, series, tz, step, err, smax >>
 
 S == [phase |-> phase, vars |-> vlist, deco |-> deco, horizon |-> horizon,
       series |-> series, tz |-> tz, step |-> step, err |-> err, smax |-> smax]
@@ -240,21 +253,30 @@ Become(s) == /\ phase' = s.phase /\ vlist' = s.vars /\ deco' = s.deco /\ horizon
              /\ series' = s.series /\ tz' = s.tz /\ step' = s.step /\ err' = s.err
              /\ smax' = s.smax
 
-Init == cfg \in Configs /\ phase = S0.phase /\ vlist = S0.vars /\ deco = S0.deco
+Init == cfg \in Configs /\ plan = << cfg >> /\ idx = 1 /\ phase = S0.phase /\ vlist = S0.vars /\ deco = S0.deco
         /\ horizon = S0.horizon /\ series = S0.series /\ tz = S0.tz /\ step = S0.step
         /\ err = S0.err /\ smax = S0.smax
 
-Parse    == phase = "setup"  /\ Become(ParseOp(cfg))         /\ UNCHANGED cfg
-LateAssign == phase = "parsed" /\ IsLate(cfg) /\ Become(LateAssignOp(S, cfg)) /\ UNCHANGED cfg
-IC_Pass1 == phase = (IF IsLate(cfg) THEN "assigned" ELSE "parsed") /\ Become(IC_Pass1Op(S, cfg))   /\ UNCHANGED cfg
-IC_Pass2 == phase = "ic1"    /\ Become(IC_Pass2Op(S, cfg))   /\ UNCHANGED cfg
-IC_Pass3 == phase = "ic2"    /\ Become(IC_Pass3Op(S, cfg))   /\ UNCHANGED cfg
-IC_Pass4 == phase = "ic3"    /\ Become(IC_Pass4Op(S, cfg))   /\ UNCHANGED cfg
-Step(k)  == phase \in {"ic4", "step"} /\ k = step + 1 /\ k <= horizon
-            /\ Become(StepOp(S, cfg, k)) /\ UNCHANGED cfg
-Finish   == phase \in {"ic4", "step"} /\ step = horizon /\ Become(FinishOp(S)) /\ UNCHANGED cfg
+Same == UNCHANGED << plan, idx, cfg >>
+(* a round is over: solved, rejected, or parsed only *)
+RoundOver == phase \in {"done", "reject"} \/ (~cfg.solve /\ phase = "parsed")
 
-Next == Parse \/ LateAssign \/ IC_Pass1 \/ IC_Pass2 \/ IC_Pass3 \/ IC_Pass4
+Parse    == phase = "setup"  /\ Become(ParseOp(cfg, -1))     /\ Same
+(* the next block of the history goes into the same solver: only smax is inherited *)
+Reparse  == /\ RoundOver /\ idx < Len(plan)
+            /\ idx' = idx + 1 /\ cfg' = plan[idx + 1] /\ UNCHANGED plan
+            /\ Become(ParseOp(plan[idx + 1], smax))
+LateAssign == phase = "parsed" /\ cfg.solve /\ IsLate(cfg) /\ Become(LateAssignOp(S, cfg)) /\ Same
+IC_Pass1 == cfg.solve /\ phase = (IF IsLate(cfg) THEN "assigned" ELSE "parsed")
+            /\ Become(IC_Pass1Op(S, cfg)) /\ Same
+IC_Pass2 == phase = "ic1"    /\ Become(IC_Pass2Op(S, cfg))   /\ Same
+IC_Pass3 == phase = "ic2"    /\ Become(IC_Pass3Op(S, cfg))   /\ Same
+IC_Pass4 == phase = "ic3"    /\ Become(IC_Pass4Op(S, cfg))   /\ Same
+Step(k)  == phase \in {"ic4", "step"} /\ k = step + 1 /\ k <= horizon
+            /\ Become(StepOp(S, cfg, k)) /\ Same
+Finish   == phase \in {"ic4", "step"} /\ step = horizon /\ Become(FinishOp(S)) /\ Same
+
+Next == Parse \/ Reparse \/ LateAssign \/ IC_Pass1 \/ IC_Pass2 \/ IC_Pass3 \/ IC_Pass4
         \/ (\E k \in 1..horizon : Step(k)) \/ Finish
 
 Spec == Init /\ [][Next]_hvars
@@ -289,5 +311,7 @@ C10_Rejects ==
 TypeOK == /\ phase \in {"setup", "parsed", "assigned", "ic1", "ic2", "ic3", "ic4", "step", "done", "reject"}
           /\ step <= horizon
           /\ phase \in {"parsed", "assigned", "ic1"} => WellOrdered(vlist)
-          /\ horizon = (IF phase = "setup" THEN 0 ELSE HorizonOf(cfg))     \* nothing after Parse moves it
+          /\ horizon = (IF phase = "setup" THEN 0 ELSE HorizonOf(cfg))     \* the horizon the user asked for in
+                                                                           \* this round; nothing after Parse moves it
+          /\ (idx >= 1 /\ idx <= Len(plan)) => cfg = plan[idx]
 =============================================================================
